@@ -8,6 +8,11 @@ lookup3 `hashlittle` (Model/Jenkins, = Spec/Lookup3 by Props/C09).
                                  evaluate the acceptor on the (mutated) base artifact
   v1ck                           (after a v1 line) the checksum text extract_checksum found
   fields                         (after an aidx line) the footer fields of the accepted index
+  encmap                         (after an enc line) for an accepted table: page counts, number of ESpec
+                                 strings, rolling digest of (first key, stored checksum, MD5 of the page bytes)
+                                 of every page at the MODEL's offsets (Enc.layout / pageMap)
+  begin consts ; consts          the constants lib/rs2lean_integrity.py extracted from the Rust source
+                                 (Generated/IntegritySrc) — the harness prints the compiled crates' values
   begin cache hooks=<0|1> skip=<n> layers=<n>
   putv k c v | putl i k v | corrupt i k v | getv k <c|none> | has k
   caput c v | cacorrupt c v | caget c
@@ -17,13 +22,16 @@ import Cascette.Model.Integrity
 import Cascette.Model.Jenkins
 import Cascette.Spec.Md5
 import Cascette.Spec.Sha256
+import Cascette.Generated.IntegritySrc
 open Cascette Drv
 open Cascette.Model.Integrity
 
 def md5H : Hash := Spec.Md5.md5
 def shaH : Hash := Spec.Sha256.sha256
 def hl0 (b : Bytes) : Nat := (Model.Jenkins.hashlittle b 0).toNat
-def hlA (b : Bytes) : Nat := (Model.Jenkins.hashlittle b 0x3D6BE971).toNat
+/-- seed = `CHECKSUM_A_SEED` as extracted from local_header.rs (0x3D6BE971 today). -/
+def hlA (b : Bytes) : Nat :=
+  (Model.Jenkins.hashlittle b (BitVec.ofNat 32 Generated.IntegritySrc.lhdr_checksum_a_seed)).toNat
 
 /-- rolling digest both sides print for longer values. -/
 def fold32 (acc : Nat) (xs : List Nat) : Nat := xs.foldl (fun a x => (a * 31 + x) % 4294967296) acc
@@ -84,6 +92,25 @@ def evalArtifact (kind : String) (param : Nat) (d : Bytes) : String :=
     | .pass _ _ => "pass"
   | _ => "bad-op"
 
+/-- `encmap`: what an accepted encoding table looks like through the model's layout. -/
+def encMap (d : Bytes) : String :=
+  match Enc.parse md5H d, Enc.readHeader d with
+  | .ok _, .ok h =>
+    let L := Enc.layout h
+    let one (idxOff pagesOff ps n : Nat) (acc : Nat) : Nat :=
+      ((List.range n).zip (Enc.pageMap d idxOff pagesOff ps n)).foldl (fun a (i, (sum, page)) =>
+        fold32 a (bytesNat (slice d (idxOff + 32 * i) 16) ++ bytesNat sum ++ bytesNat (md5H page))) acc
+    let x := one L.ekIndex L.ekPages (h.ekKb * 1024) h.ekCount (one L.ckIndex L.ckPages (h.ckKb * 1024) h.ckCount 7)
+    let especs := ((slice d 22 h.especSize).filter (· == 0)).length
+    s!"ok ck={h.ckCount} ek={h.ekCount} especs={especs} x={x}"
+  | _, _ => "rejected"
+
+def constsStr : String :=
+  s!"lru={Generated.IntegritySrc.lru_header_size},{Generated.IntegritySrc.lru_entry_size},{Generated.IntegritySrc.lru_max_version} " ++
+  s!"upd={Generated.IntegritySrc.upd_entry_size},{Generated.IntegritySrc.upd_page_size} " ++
+  s!"lhdr={Generated.IntegritySrc.lhdr_size} seg={Generated.IntegritySrc.seg_header_size} " ++
+  s!"skip={Generated.IntegritySrc.max_validation_size}"
+
 def outStr : Cache.Out → String
   | .ok => "ok" | .none => "none" | .hit v => "hit " ++ hexOf v | .invalid => "err:validation"
   | .corrupt => "err:corruption" | .badLayer => "err:layer"
@@ -106,8 +133,13 @@ def handle (st : St) : List String → St × String
   | ["begin", "cache", h, sk, ly] =>
     match kv? h "hooks", kv? sk "skip", kv? ly "layers" with
     | some h, some sk, some ly =>
+      -- the exemption size the harness states must be the one found in the Rust source
+      if sk != Generated.IntegritySrc.max_validation_size then (st, s!"err:const skip={Generated.IntegritySrc.max_validation_size}") else
       ({ st with kind := "cache", cfg := ⟨h == 1, sk⟩, layers := List.replicate ly [], ca := [] }, "ok")
     | _, _, _ => (st, "bad-op")
+  | ["begin", "consts"] => ({ st with kind := "consts" }, "ok")
+  | ["consts"] => if st.kind == "consts" then (st, constsStr) else (st, "bad-op")
+  | ["encmap"] => if st.kind == "enc" then (st, encMap st.last) else (st, "bad-op")
   | ["begin", "lhdr", p, hx] =>
     match p.toNat?, parseHex hx with
     | some p, some b => ({ st with kind := "lhdr", base := b, param := p, last := b }, "ok")
@@ -118,7 +150,7 @@ def handle (st : St) : List String → St × String
       | some b => ({ st with kind := kind, base := b, param := 0, last := b }, "ok")
       | none => (st, "bad-op")
     else (st, "bad-op")
-  | ["load"] => if st.kind == "cache" || st.kind == "" then (st, "bad-op") else mutate st st.base
+  | ["load"] => if st.kind == "cache" || st.kind == "consts" || st.kind == "" then (st, "bad-op") else mutate st st.base
   | ["flip", bit] =>
     if st.kind == "cache" || st.kind == "" then (st, "bad-op") else
     match bit.toNat? with
